@@ -1,0 +1,21 @@
+//go:build verif
+
+package server
+
+import (
+	"github.com/fatedier/frp/server/controller"
+)
+
+// VerifResourceController exposes the service's resource controller (port managers, group
+// controllers) to the C09 correspondence harness.
+func (svr *Service) VerifResourceController() *controller.ResourceController { return svr.rc }
+
+// VerifProxyCloser returns the registered proxy with the given name as a closer, so that the
+// harness can replay the late second Close that a udp proxy's forwarding goroutine performs.
+func (svr *Service) VerifProxyCloser(name string) (interface{ Close() }, bool) {
+	p, ok := svr.pxyManager.GetByName(name)
+	if !ok {
+		return nil, false
+	}
+	return p, true
+}
